@@ -79,20 +79,23 @@ def work(tier, seed):
 # ----------------------------------------------------------------------------- tiling
 
 
-def make_distributor(torch, shape, max_dim, merge):
+def make_distributor(torch, shape, max_dim, merge, frozen=False):
     from distributed_shampoo.shampoo_types import MAX_PRECONDITIONER_DIM, PARAMS, USE_MERGE_DIMS
     from distributed_shampoo.utils.shampoo_distributor import Distributor
 
     n = prod(shape) if shape else 1
-    p = torch.nn.Parameter(torch.arange(n, dtype=torch.float32).reshape(shape))
+    p = torch.nn.Parameter(torch.arange(n, dtype=torch.float32).reshape(shape), requires_grad=not frozen)
     group = {PARAMS: [p], MAX_PRECONDITIONER_DIM: max_dim, USE_MERGE_DIMS: merge}
-    return p, Distributor(group)
+    d = Distributor(group)
+    if frozen:
+        p.requires_grad_(True)  # gradual unfreezing: the parameter was frozen when the optimizer was built
+    return p, d
 
 
-def check_tiling(torch, shape, max_dim, merge):
+def check_tiling(torch, shape, max_dim, merge, frozen=False):
     msgs = []
     n = prod(shape) if shape else 1
-    p, d = make_distributor(torch, shape, max_dim, merge)
+    p, d = make_distributor(torch, shape, max_dim, merge, frozen)
     blocks = d.local_blocked_params
     mshape, ref = ref_blocks(shape, max_dim, merge)
     # reference-free invariants
@@ -156,7 +159,7 @@ def check_tiling(torch, shape, max_dim, merge):
 # ----------------------------------------------------------------------------- invariance
 
 
-def check_invariance(cfg, hist):
+def check_invariance(cfg, hist, zero_block=False):
     """blocked run vs pre-split run (blocks as separate contiguous parameters, no blocking)."""
     import torch
 
@@ -179,6 +182,9 @@ def check_invariance(cfg, hist):
     msgs, digests = [], []
     for t, mask in enumerate(hist):
         seq.set_grads(params, cfg, t, mask)
+        if zero_block and t >= 1 and params[0].grad is not None:
+            # the gradient is exactly zero on the whole first block (but not on the whole tensor): still a gradient
+            params[0].grad.reshape(-1)[torch.as_tensor(np.asarray(layout[0][0][1]).reshape(-1))] = 0.0
         k = 0
         for pi, blks in enumerate(layout):
             for bs, idx in blks:
@@ -220,6 +226,9 @@ def run_unit(unit):
                 for merge in (True, False):
                     try:
                         msgs, nb, sig = check_tiling(torch, shape, max_dim, merge)
+                        if not msgs and max_dim in (2, 1024):
+                            m2, _, _ = check_tiling(torch, shape, max_dim, merge, frozen=True)
+                            msgs = [f"(parameter frozen at construction, unfrozen later) {m}" for m in m2]
                     except Exception as e:
                         msgs, nb, sig = [f"raised {type(e).__name__}: {str(e)[:150]}"], 0, ()
                     res["evals"] += 1
@@ -242,6 +251,10 @@ def run_unit(unit):
             for h in itertools.product(masks, repeat=unit["depth"]):
                 hist = [list(m) for m in h]
                 msgs, digests = check_invariance(cfg, hist)
+                if not msgs and all(m[0] for m in hist):
+                    msgs, _ = check_invariance(cfg, hist, zero_block=True)
+                    msgs = [f"(gradient exactly zero on the first block) {m}" for m in msgs]
+                    res["stats"]["zero_block_histories"] = res["stats"].get("zero_block_histories", 0) + 1
                 res["evals"] += 1
                 res["transitions"] += len(hist)
                 res["stats"]["inv_histories"] += 1
@@ -266,7 +279,9 @@ def replay(case):
 
     if case["part"] == "tile":
         try:
-            return check_tiling(torch, tuple(case["shape"]), case["max_dim"], case["merge"])[0]
+            a = check_tiling(torch, tuple(case["shape"]), case["max_dim"], case["merge"])[0]
+            return a or check_tiling(torch, tuple(case["shape"]), case["max_dim"], case["merge"], frozen=True)[0]
         except Exception as e:
             return [f"raised {type(e).__name__}: {e}"]
-    return check_invariance(case["cfg"], case["hist"])[0]
+    a = check_invariance(case["cfg"], case["hist"])[0]
+    return a or check_invariance(case["cfg"], case["hist"], zero_block=True)[0]
